@@ -550,6 +550,15 @@ func VerifH_C14_fieldOpsUnicode() {
 		{"suffix", true, "ка", "ёлка", true},
 		{"equal", true, "ёлка", "ёлка", true},
 		{"equal", true, "ёлка", "елка", false},
+		// case-insensitive rules on characters whose lower-case form has another length in UTF-8
+		// (U+023A: 2 -> 3 bytes, KELVIN SIGN U+212A: 3 -> 1 byte)
+		{"contains", false, "\u023ab", "\u023ab", true},
+		{"contains", false, "\u023ab", "x\u023abz", true},
+		{"prefix", false, "\u023ab", "\u023ab", true},
+		{"suffix", false, "\u212a", "5\u212a", true},
+		{"prefix", false, "\u212a", "\u212a5", true},
+		{"contains", false, "\u212a", "5\u212a5", true},
+		{"contains", false, "ЁЛ", "ёлка", true},
 	}
 	c := cases[vf.Choose("case", len(cases))]
 	node, err := NewFieldOpNode(c.op, "f", c.caseSensitive, [][]byte{[]byte(c.value)})
